@@ -42,6 +42,13 @@ fn representatives(e: &Expr) -> Vec<u8> {
         seen.entry(sig).or_insert(b);
     }
     let mut r: Vec<u8> = seen.values().copied().collect();
+    // bytes an implementation might single out although the specification does not
+    // (sentinels, sign bit, ASCII edge): always part of the alphabet
+    for extra in [0x00u8, 0xff, 0x80, 0x7f] {
+        if !r.contains(&extra) {
+            r.push(extra);
+        }
+    }
     r.sort();
     r
 }
